@@ -12,6 +12,65 @@ type Style struct {
 	PG       bool // identifiers in double quotes (PostgresEscapingDialect)
 	Brackets bool // ARRAY(..) written as [..] (IdiomaticArrays)
 	QuoteAll bool // quote every identifier, even plain ones
+	Root     bool // the document is addressed under `root` (Wrapped): FROM paths get the prefix
+	ctes     map[string]bool
+	inSub    bool // rendering a row-scoped subquery: paths without <- are relative to the row
+}
+
+// rooted prefixes a FROM path with `root` (after leading <- steps) unless it names a CTE.
+func (st Style) rooted(p []string) []string {
+	if !st.Root {
+		return p
+	}
+	i := 0
+	for i < len(p) && p[i] == "<-" {
+		i++
+	}
+	if st.inSub && i == 0 {
+		return p
+	}
+	if i < len(p) && (st.ctes[p[i]] || p[i] == "dual") {
+		return p
+	}
+	out := append([]string{}, p[:i]...)
+	out = append(out, "root")
+	return append(out, p[i:]...)
+}
+
+func (st Style) sub() Style {
+	st.inSub = true
+	if st.Root && st.ctes == nil {
+		st.ctes = map[string]bool{}
+	}
+	return st
+}
+
+func (st Style) withCtes(q Node) Style {
+	names := map[string]bool{}
+	for k := range st.ctes {
+		names[k] = true
+	}
+	var walk func(v any)
+	walk = func(v any) {
+		switch x := v.(type) {
+		case []any:
+			for _, e := range x {
+				walk(e)
+			}
+		case map[string]any:
+			if w, ok := x["with"].([]any); ok {
+				for _, c := range w {
+					names[c.(Node)["name"].(string)] = true
+				}
+			}
+			for _, e := range x {
+				walk(e)
+			}
+		}
+	}
+	walk(q)
+	st.ctes = names
+	return st
 }
 
 var plainIdent = regexp.MustCompile(`^[A-Za-z_][A-Za-z0-9_]*$`)
@@ -149,7 +208,7 @@ func (st Style) Expr(e Node) string {
 		}
 		return "(" + st.Expr(e["l"].(Node)) + neg(e) + " IN (" + strings.Join(items, ", ") + "))"
 	case "insub":
-		return "(" + st.Expr(e["l"].(Node)) + " IN (" + st.Query(e["q"].(Node)) + "))"
+		return "(" + st.Expr(e["l"].(Node)) + " IN (" + st.sub().Query(e["q"].(Node)) + "))"
 	case "between":
 		return "(" + st.Expr(e["e"].(Node)) + neg(e) + " BETWEEN " + st.Expr(e["lo"].(Node)) + " AND " + st.Expr(e["hi"].(Node)) + ")"
 	case "is":
@@ -193,9 +252,9 @@ func (st Style) Expr(e Node) string {
 		}
 		return name + "(" + strings.Join(args, ", ") + ")"
 	case "sub":
-		return "(" + st.Query(e["q"].(Node)) + ")"
+		return "(" + st.sub().Query(e["q"].(Node)) + ")"
 	case "exists":
-		return "EXISTS (" + st.Query(e["q"].(Node)) + ")"
+		return "EXISTS (" + st.sub().Query(e["q"].(Node)) + ")"
 	}
 	panic(fmt.Sprintf("cannot render expression %#v", e))
 }
@@ -217,9 +276,19 @@ func (st Style) From(f Node) string {
 	}
 	switch f["k"] {
 	case "table":
-		return st.path(strs(f["p"])) + as
+		return st.path(st.rooted(strs(f["p"]))) + as
 	case "sel":
-		return st.quote(SelectorText(seq(f["sel"]))) + as
+		sel := seq(f["sel"])
+		if st.Root && len(sel) > 0 {
+			// prefix the first key step of the first segment
+			first := sel[0].(Node)
+			steps := seq(first["steps"])
+			if len(steps) > 0 && steps[0].(Node)["k"] == "key" && !st.ctes[steps[0].(Node)["name"].(string)] {
+				ns := append([]any{Node{"k": "key", "name": "root"}}, steps...)
+				sel = append([]any{Node{"fn": first["fn"], "steps": ns}}, sel[1:]...)
+			}
+		}
+		return st.quote(SelectorText(sel)) + as
 	case "derived":
 		return "(" + st.Query(f["q"].(Node)) + ")" + as
 	case "join":
@@ -248,6 +317,9 @@ func limitText(q Node) string {
 
 // Query renders a query AST as SQL text.
 func (st Style) Query(q Node) string {
+	if st.Root && st.ctes == nil {
+		st = st.withCtes(q)
+	}
 	if q["k"] == "union" {
 		kw := " UNION "
 		if q["all"].(bool) {
